@@ -29,6 +29,8 @@ Judge(k) ==
   /\ Report(k, "C12.NoSharing", NoSharing')
   /\ Report(k, "C12.UniqueIds", UniqueIds')
   /\ Report(k, "C12.KeyIsId", \A p \in SetOf(ln(k).st.pairs) : p.keyok)
+  (* ... and found through the registry's own lookups (GetTokenPairID, the TokenPair query) by its address and by each denomination *)
+  /\ Report(k, "C12.FoundByLookup", \A p \in SetOf(ln(k).st.pairs) : p.lookups)
   /\ Report(k, "C11.BackedModuleOwned", BackedModuleOwned')
   /\ Report(k, "C11.BackedExternal", BackedExternal')
   /\ Report(k, "C11.NonNegative", NonNegative')
